@@ -229,7 +229,12 @@ func main() {
 	gss := flag.String("gs", "2,8,32", "goroutine counts")
 	scen := flag.Int("scenarios", 0, "registry scenarios")
 	hammer := flag.Float64("hammer", 0, "seconds of unlogged hammering")
+	selfrace := flag.Bool("selfrace", false, "control: race on a harness variable (the detector must report it)")
 	flag.Parse()
+	if *selfrace {
+		selfRace()
+		return
+	}
 	var gs []int
 	for _, s := range strings.Split(*gss, ",") {
 		n, err := strconv.Atoi(s)
@@ -255,4 +260,23 @@ func main() {
 		fmt.Fprintln(os.Stderr, "usage: c18 -out f | -regout f | -hammer s")
 		os.Exit(2)
 	}
+}
+
+// selfRace is the control of the no-data-race clause: two goroutines write one harness variable
+// without synchronisation. A -race build must report it; checks/C18.py treats silence as
+// "detector not attached" (exit 2).
+func selfRace() {
+	shared := 0
+	var wg sync.WaitGroup
+	for g := 0; g < 2; g++ {
+		wg.Add(1)
+		go func() {
+			defer wg.Done()
+			for i := 0; i < 1000; i++ {
+				shared++
+			}
+		}()
+	}
+	wg.Wait()
+	fmt.Println("c18: selfrace", shared > 0)
 }
